@@ -299,6 +299,12 @@ func buildOps() []*Op {
 		}})
 	add(&Op{Label: `Clauses(clause.OnConflict{UpdateAll:true})`, Clause: "ONCONFLICT",
 		Apply: func(db *gorm.DB, c *Ctx, v []Val) *gorm.DB { return db.Clauses(clause.OnConflict{UpdateAll: true}) }})
+	add(&Op{Label: `Scopes(func(d){ return d.Where("{0} = ?", v).Or("{1} IN ?", w) })`, Clause: "WHERE", Slots: []SlotSpec{anySlot(0), inSlot(1)},
+		Apply: func(db *gorm.DB, c *Ctx, v []Val) *gorm.DB {
+			q1, q2 := c.tpl("{0} = ?"), c.tpl("{1} IN ?")
+			return db.Scopes(func(d *gorm.DB) *gorm.DB { return d.Where(q1, v[0].V).Or(q2, v[1].V) })
+		}})
+
 	// named arguments in further template-taking calls
 	add(&Op{Label: `Joins("JOIN t2 k ON {0} = @a AND {1} = @b", map{a,b})`, Clause: "JOIN", Slots: []SlotSpec{anySlot(0), anySlot(1)},
 		Apply: func(db *gorm.DB, c *Ctx, v []Val) *gorm.DB {
